@@ -449,11 +449,12 @@ impl<'a, C: OrdColl> OrdSession<'a, C> {
         let snap = self.c.snap_json();
         let sep = if snap.is_empty() { "" } else { "," };
         self.tr.line(&format!(
-            "\"ev\":\"reset\",\"coll\":\"{}\",\"kind\":\"{}\",\"set\":{},\"cap\":{}{}{}",
+            "\"ev\":\"reset\",\"coll\":\"{}\",\"kind\":\"{}\",\"set\":{},\"cap\":{},\"se\":{}{}{}",
             C::name(),
             C::KIND,
             C::IS_SET as u8,
             self.cap,
+            self.snap_every,
             sep,
             snap
         ));
@@ -970,6 +971,7 @@ pub fn run_random<C: OrdColl>(tr: &mut Trace, cfg: &RandCfg) {
     let caps = [0usize, 1, 8, 9, 33];
     let mut s: OrdSession<C> = OrdSession::new(tr, cfg.keys, caps[(rng.next() % 5) as usize], 5);
     s.snap_every = cfg.snap_every;
+    s.reset(s.cap);
     // handles the harness holds (handle, key it was taken for); dropped at every deletion / clear,
     // and (lists) at every insertion
     let mut held: Vec<(u32, i32)> = vec![];
